@@ -201,6 +201,11 @@ func (r *Report) finish() (int, error) {
 			trusted[k] += v
 		}
 	}
+	var unrolled []string
+	for _, e := range r.Encs {
+		unrolled = append(unrolled, e.unrolled...)
+	}
+	sort.Strings(unrolled)
 	assumptions := append([]string{}, r.Prop.Assumptions...)
 	for k := range trusted {
 		assumptions = append(assumptions, "trusted: "+k)
@@ -215,6 +220,7 @@ func (r *Report) finish() (int, error) {
 		"per_obligation":           evs,
 		"abstracted":               abstracted,
 		"inlined_callees":          inlined,
+		"unrolled_loops":           unrolled,
 		"modular_callees":          modular,
 		"solver_ms":                solverMs,
 		"load_ms":                  r.L.LoadMs,
